@@ -46,6 +46,7 @@ func newVectorizedTable(a vectorAccumulator) *vectorTable {
 func (t *vectorTable) aggregate(_ float64, vector model.StepVector) {
 	if len(vector.SampleIDs) == 0 {
 		t.hasValue = false
+		t.timestamp = vector.T
 		return
 	}
 	t.hasValue = true
